@@ -4,7 +4,7 @@
    the rdflib writer can produce -- the two coincide. *)
 From Coq Require Import Arith Lia.
 From PJ.Model Require Import Base Lookup Terms Wire Encoder Streams Decoder Spec.
-From PJ.Proofs Require Import FlowProofs FrameShape WireProofs WireRT BytesE2E AgreeProofs EncoderProofs EncStream EncRdflib EncRdflibQuads.
+From PJ.Proofs Require Import FlowProofs FrameShape WireProofs WireRT BytesE2E AgreeProofs EncoderProofs Den EncStream EncRdflib EncRdflibQuads.
 
 Definition rows_rdf11 (rows : list row) : Prop := forallb row_rdf11 rows = true.
 
@@ -35,11 +35,20 @@ Proof.
     intros H; inversion H; subst. apply entry_rows_rdf11.
 Qed.
 
-Lemma encode_literal_rdf11 lex lang dt t t' rows w : encode_literal lex lang dt t = Ok (t', rows, w) -> rows_rdf11 rows /\ no_quoted w = true.
+(* a term whose language tag (if any) rdflib accepts *)
+Definition term_lang_ok (tm : term) : bool :=
+  match tm with TLit _ (Some l) _ => is_nil l || valid_langtag l | _ => true end.
+Lemma term_rdflib_lang tm : term_rdflib tm = true -> term_lang_ok tm = true.
+Proof. destruct tm as [x|x|lex [l|] [d|]|s p o| |]; cbn; intros H; try reflexivity; try discriminate; exact H. Qed.
+
+Lemma encode_literal_rdf11 lex lang dt t t' rows w : term_lang_ok (TLit lex lang dt) = true ->
+  encode_literal lex lang dt t = Ok (t', rows, w) -> rows_rdf11 rows /\ wt_ok w = true.
 Proof.
-  unfold encode_literal, bind.
+  intros Hl. unfold encode_literal, bind.
   destruct (match truthy dt with Some d => _ | None => _ end) as [[[t0 r0] dtid]|] eqn:E; [|discriminate].
-  intros H; inversion H; subst. split; [|reflexivity].
+  intros H; inversion H; subst. split.
+  2:{ unfold wt_ok. cbn [no_quoted andb lang_ok]. destruct (negb (dtid =? 0)); [reflexivity|].
+      destruct lang as [l|]; [|reflexivity]. cbn [truthy]. destruct (is_nil l) eqn:En; [reflexivity|]. cbn [term_lang_ok] in Hl. exact Hl. }
   destruct (truthy dt) as [d|]; [|inversion E; reflexivity].
   destruct (str_eqb d xsd_string); [inversion E; reflexivity|].
   destruct (lmax (t_datatypes t) =? 0); [discriminate|].
@@ -47,16 +56,16 @@ Proof.
   destruct (lift KeyErr _) as [[dts2 idx]|]; [|discriminate]. inversion E; subst. destruct oe; reflexivity.
 Qed.
 
-Lemma encode_spo_term_rdf11 tm t t' rows w : encode_spo_term Rdflib tm t = Ok (t', rows, w) -> rows_rdf11 rows /\ no_quoted w = true.
+Lemma encode_spo_term_rdf11 tm t t' rows w : term_lang_ok tm = true -> encode_spo_term Rdflib tm t = Ok (t', rows, w) -> rows_rdf11 rows /\ wt_ok w = true.
 Proof.
-  destruct tm; cbn [encode_spo_term]; try discriminate.
+  intros Hl. destruct tm; cbn [encode_spo_term]; try discriminate.
   - unfold bind. destruct (encode_iri iri t) as [[[[t1 r1] p] n]|] eqn:E; [|discriminate]. intros H; inversion H; subst.
     split; [eapply encode_iri_rdf11; eauto|reflexivity].
   - intros H; inversion H; subst. split; reflexivity.
-  - apply encode_literal_rdf11.
+  - apply encode_literal_rdf11. exact Hl.
 Qed.
 
-Lemma encode_graph_term_rdf11 tm t t' rows w : encode_graph_term Rdflib tm t = Ok (t', rows, w) -> rows_rdf11 rows /\ no_quoted w = true.
+Lemma encode_graph_term_rdf11 tm t t' rows w : encode_graph_term Rdflib tm t = Ok (t', rows, w) -> rows_rdf11 rows /\ wt_ok w = true.
 Proof.
   destruct tm; cbn [encode_graph_term]; try discriminate.
   - destruct (str_eqb iri rdflib_default_graph); [intros H; inversion H; subst; split; reflexivity|].
@@ -65,11 +74,11 @@ Proof.
   - intros H; inversion H; subst. split; reflexivity.
 Qed.
 
-Lemma encode_slot_rdf11 prev tm t t' rows w prev' : encode_slot Rdflib prev tm t = Ok (t', rows, w, prev') -> rows_rdf11 rows /\ no_quoted_opt w = true.
+Lemma encode_slot_rdf11 prev tm t t' rows w prev' : term_lang_ok tm = true -> encode_slot Rdflib prev tm t = Ok (t', rows, w, prev') -> rows_rdf11 rows /\ no_quoted_opt w = true.
 Proof.
-  unfold encode_slot. destruct (differs prev tm).
+  intros Hl. unfold encode_slot. destruct (differs prev tm).
   - unfold bind. destruct (encode_spo_term Rdflib tm t) as [[[t1 r1] w1]|] eqn:E; [|discriminate]. intros H; inversion H; subst.
-    exact (encode_spo_term_rdf11 _ _ _ _ _ E).
+    exact (encode_spo_term_rdf11 _ _ _ _ _ Hl E).
   - intros H; inversion H; subst. split; reflexivity.
 Qed.
 
@@ -81,23 +90,24 @@ Proof.
   - intros H; inversion H; subst. split; reflexivity.
 Qed.
 
-Lemma encode_triple_rdf11 terms t rp t' rp' rows : encode_triple Rdflib terms t rp = Ok (t', rp', rows) -> rows_rdf11 rows.
+Lemma encode_triple_rdf11 terms t rp t' rp' rows : forallb term_lang_ok terms = true -> encode_triple Rdflib terms t rp = Ok (t', rp', rows) -> rows_rdf11 rows.
 Proof.
-  unfold encode_triple, bind, nth_term. destruct terms as [|s [|p [|o rest]]]; cbn [nth_error]; try discriminate.
+  intros Hl. unfold encode_triple, bind, nth_term. destruct terms as [|s [|p [|o rest]]]; cbn [nth_error]; try discriminate.
   - destruct (encode_slot _ _ _ _) as [[[[? ?] ?] ?]|]; discriminate.
   - destruct (encode_slot _ _ _ _) as [[[[t1 ?] ?] ?]|]; [|discriminate]. destruct (encode_slot _ _ _ t1) as [[[[? ?] ?] ?]|]; discriminate.
   - destruct (encode_slot Rdflib (r_s rp) s (start_statement t)) as [[[[t1 r1] ws] ps]|] eqn:E1; [|discriminate].
     destruct (encode_slot Rdflib (r_p rp) p t1) as [[[[t2 r2] wp] pp]|] eqn:E2; [|discriminate].
     destruct (encode_slot Rdflib (r_o rp) o t2) as [[[[t3 r3] wo] po]|] eqn:E3; [|discriminate].
     intros H; inversion H; subst.
-    destruct (encode_slot_rdf11 _ _ _ _ _ _ _ E1) as [A1 B1]. destruct (encode_slot_rdf11 _ _ _ _ _ _ _ E2) as [A2 B2].
-    destruct (encode_slot_rdf11 _ _ _ _ _ _ _ E3) as [A3 B3].
+    cbn [forallb] in Hl. apply andb_prop in Hl. destruct Hl as [L1 Hl]. apply andb_prop in Hl. destruct Hl as [L2 Hl]. apply andb_prop in Hl. destruct Hl as [L3 _].
+    destruct (encode_slot_rdf11 _ _ _ _ _ _ _ L1 E1) as [A1 B1]. destruct (encode_slot_rdf11 _ _ _ _ _ _ _ L2 E2) as [A2 B2].
+    destruct (encode_slot_rdf11 _ _ _ _ _ _ _ L3 E3) as [A3 B3].
     repeat apply rows_rdf11_app; try assumption. unfold rows_rdf11. cbn. now rewrite B1, B2, B3.
 Qed.
 
-Lemma encode_quad_rdf11 terms t rp t' rp' rows : encode_quad Rdflib terms t rp = Ok (t', rp', rows) -> rows_rdf11 rows.
+Lemma encode_quad_rdf11 terms t rp t' rp' rows : forallb term_lang_ok terms = true -> encode_quad Rdflib terms t rp = Ok (t', rp', rows) -> rows_rdf11 rows.
 Proof.
-  unfold encode_quad, bind, nth_term. destruct terms as [|s [|p [|o [|g rest]]]]; cbn [nth_error]; try discriminate.
+  intros Hl. unfold encode_quad, bind, nth_term. destruct terms as [|s [|p [|o [|g rest]]]]; cbn [nth_error]; try discriminate.
   - destruct (encode_slot _ _ _ _) as [[[[? ?] ?] ?]|]; discriminate.
   - destruct (encode_slot _ _ _ _) as [[[[t1 ?] ?] ?]|]; [|discriminate]. destruct (encode_slot _ _ _ t1) as [[[[? ?] ?] ?]|]; discriminate.
   - destruct (encode_slot _ _ _ _) as [[[[t1 ?] ?] ?]|]; [|discriminate]. destruct (encode_slot _ _ _ t1) as [[[[t2 ?] ?] ?]|]; [|discriminate].
@@ -107,26 +117,31 @@ Proof.
     destruct (encode_slot Rdflib (r_o rp) o t2) as [[[[t3 r3] wo] po]|] eqn:E3; [|discriminate].
     destruct (encode_gslot Rdflib (r_g rp) g t3) as [[[[t4 r4] wg] pg]|] eqn:E4; [|discriminate].
     intros H; inversion H; subst.
-    destruct (encode_slot_rdf11 _ _ _ _ _ _ _ E1) as [A1 B1]. destruct (encode_slot_rdf11 _ _ _ _ _ _ _ E2) as [A2 B2].
-    destruct (encode_slot_rdf11 _ _ _ _ _ _ _ E3) as [A3 B3]. destruct (encode_gslot_rdf11 _ _ _ _ _ _ _ E4) as [A4 B4].
+    cbn [forallb] in Hl. apply andb_prop in Hl. destruct Hl as [L1 Hl]. apply andb_prop in Hl. destruct Hl as [L2 Hl]. apply andb_prop in Hl. destruct Hl as [L3 _].
+    destruct (encode_slot_rdf11 _ _ _ _ _ _ _ L1 E1) as [A1 B1]. destruct (encode_slot_rdf11 _ _ _ _ _ _ _ L2 E2) as [A2 B2].
+    destruct (encode_slot_rdf11 _ _ _ _ _ _ _ L3 E3) as [A3 B3]. destruct (encode_gslot_rdf11 _ _ _ _ _ _ _ E4) as [A4 B4].
     repeat apply rows_rdf11_app; try assumption. unfold rows_rdf11. cbn. now rewrite B1, B2, B3, B4.
 Qed.
 
 (* ---- all rows a rdflib flat run appends ---- *)
-Lemma appended_triples_rdf11 stmts : forall s, st_integ s = Rdflib -> rows_rdf11 (appended_all stream_triple appended_triple stmts s).
+Definition stmts_lang_ok (stmts : list (list term)) : bool := forallb (forallb term_lang_ok) stmts.
+
+Lemma appended_triples_rdf11 stmts : forall s, stmts_lang_ok stmts = true -> st_integ s = Rdflib -> rows_rdf11 (appended_all stream_triple appended_triple stmts s).
 Proof.
-  induction stmts as [|st rest IH]; intros s Hig; cbn [appended_all]; [reflexivity|].
+  induction stmts as [|st rest IH]; intros s Hl Hig; cbn [appended_all]; [reflexivity|].
+  cbn [stmts_lang_ok forallb] in Hl. apply andb_prop in Hl. destruct Hl as [Hl1 Hl2].
   destruct (stream_triple st s) as [s1 [fr|e]] eqn:E; [|reflexivity].
   destruct (stream_triple_encode _ _ _ _ E) as [Henc Hig1]. rewrite Hig in Henc.
-  apply rows_rdf11_app; [eapply encode_triple_rdf11; eauto|apply IH; congruence].
+  apply rows_rdf11_app; [eapply encode_triple_rdf11; eauto|apply IH; [exact Hl2 | congruence]].
 Qed.
 
-Lemma appended_quads_rdf11 stmts : forall s, st_integ s = Rdflib -> rows_rdf11 (appended_all stream_quad appended_quad stmts s).
+Lemma appended_quads_rdf11 stmts : forall s, stmts_lang_ok stmts = true -> st_integ s = Rdflib -> rows_rdf11 (appended_all stream_quad appended_quad stmts s).
 Proof.
-  induction stmts as [|st rest IH]; intros s Hig; cbn [appended_all]; [reflexivity|].
+  induction stmts as [|st rest IH]; intros s Hl Hig; cbn [appended_all]; [reflexivity|].
+  cbn [stmts_lang_ok forallb] in Hl. apply andb_prop in Hl. destruct Hl as [Hl1 Hl2].
   destruct (stream_quad st s) as [s1 [fr|e]] eqn:E; [|reflexivity].
   destruct (stream_quad_encode _ _ _ _ E) as [Henc Hig1]. rewrite Hig in Henc.
-  apply rows_rdf11_app; [eapply encode_quad_rdf11; eauto|apply IH; congruence].
+  apply rows_rdf11_app; [eapply encode_quad_rdf11; eauto|apply IH; [exact Hl2 | congruence]].
 Qed.
 
 (* ---- the rdflib parser on such bytes is the generic parser ---- *)
@@ -136,43 +151,109 @@ Proof.
   apply rows_rdf11_app_inv in H. destruct H as [H1 H2]. rewrite H1. now apply IH.
 Qed.
 
-Theorem rdflib_parser_is_generic (fs : list frame) (grouped strict : bool) :
+(* what the rdflib parser returns is the VIEW (AgreeProofs.rview: rdflib's Literal constructor applied to every literal) of what
+   the generic parser returns *)
+Definition pview (r : parse_result) : parse_result :=
+  {| pr_frames := map fview (pr_frames r); pr_end := pr_end r; pr_preread := pr_preread r |}.
+
+Lemma last_err_view frs : last_err (map fview frs) = last_err frs.
+Proof. induction frs as [|[[md evs] [e|]] frs IH]; cbn; [reflexivity|reflexivity|exact IH]. Qed.
+
+Lemma decoder_new_fresh po st : decoder_new po = Ok st -> vst st = st.
+Proof.
+  unfold decoder_new, bind. destruct (ldec_new (po_maxn po)); [|discriminate]. destruct (ldec_new (po_maxp po)); [|discriminate].
+  destruct (ldec_new (po_maxd po)); [|discriminate]. intros H; inversion H; subst. reflexivity.
+Qed.
+
+Theorem rdflib_parser_is_view (fs : list frame) (grouped strict : bool) :
   hint (firstn 3 (write_delimited fs)) = true -> Forall sendable fs -> rows_rdf11 (flat_map f_rows fs) ->
-  parse_stream Rdflib grouped strict (write_delimited fs) = parse_stream Generic grouped strict (write_delimited fs).
+  parse_stream Rdflib grouped strict (write_delimited fs) = pview (parse_stream Generic grouped strict (write_delimited fs)).
 Proof.
   intros Hh Hs Hr. unfold parse_stream, parse_stream_h, get_options_and_frames_h. rewrite Hh.
   rewrite (read_frames_delimited_wf _ Hs). destruct (skip_empty fs) as [sk [|first more]]; [reflexivity|].
   destruct (options_from_frame first true) as [po|]; cbn [bind]; [|reflexivity].
   destruct (strict && _); [reflexivity|]. destruct (route (po_phys po)) as [ak|]; [|reflexivity].
-  destruct (decoder_new po) as [st|]; [|reflexivity].
-  rewrite (decode_frames_agree ak po fs st (frames_rdf11_of_rows _ Hr)). reflexivity.
+  destruct (decoder_new po) as [st|] eqn:En; [|reflexivity].
+  rewrite <- (decoder_new_fresh _ _ En) at 1 2.
+  rewrite (decode_frames_view ak po fs st (frames_rdf11_of_rows _ Hr)). unfold pview. cbn [pr_frames pr_end pr_preread].
+  rewrite last_err_view. reflexivity.
 Qed.
 
-(* any valid stream without quoted triples: the rdflib parser reads it like the generic one *)
+Lemma flat_events_view r : flat_events (pview r) = map eview (flat_events r).
+Proof.
+  unfold flat_events, pview. cbn [pr_frames]. induction (pr_frames r) as [|[[md evs] err] frs IH]; cbn [map flat_map fview fst snd]; [reflexivity|].
+  rewrite map_app, IH. reflexivity.
+Qed.
+
+(* any valid stream without quoted triples and with well-formed language tags: the rdflib parser returns the view of its events *)
 Theorem valid_bytes_decode_rdflib (fs : list frame) (evs : list event) (grouped : bool) :
   run_frames fs = Valid evs -> Forall small fs -> rows_rdf11 (flat_map f_rows fs) ->
   (match fs with f :: _ => (f_rows f = [] /\ f_meta f = []) \/ f_rows f <> [] | [] => True end) ->
   let r := parse_stream Rdflib grouped false (write_delimited fs) in
-  flat_events r = evs /\ pr_end r = PEnd /\ length (pr_frames r) = length fs.
+  flat_events r = map eview evs /\ pr_end r = PEnd /\ length (pr_frames r) = length fs.
 Proof.
   intros Hrun Hsmall Hr Hfirst. cbv zeta.
-  rewrite rdflib_parser_is_generic; [now apply valid_bytes_decode_delimited| |now apply (valid_sendable fs evs)|exact Hr].
-  now apply (valid_hint fs evs).
+  rewrite rdflib_parser_is_view; [| |now apply (valid_sendable fs evs)|exact Hr].
+  2: now apply (valid_hint fs evs).
+  destruct (valid_bytes_decode_delimited fs evs grouped Hrun Hsmall Hfirst) as (H1 & H2 & H3).
+  rewrite flat_events_view, H1. unfold pview. cbn [pr_end pr_frames]. rewrite map_length. auto.
+Qed.
+
+(* ... and on the terms rdflib can hold (AgreeProofs.term_rdflib) the view is the term itself *)
+Lemma rview_norm t : term_rdflib t = true -> rview (norm t) = norm t.
+Proof.
+  destruct t as [x|x|lex [l|] [d|]|s p o| |]; cbn [term_rdflib norm]; try reflexivity; try discriminate; intros H.
+  - cbn [truthy]. destruct (is_nil l); reflexivity.
+  - cbn [truthy]. destruct (is_nil d) eqn:En; [reflexivity|]. destruct (str_eqb d xsd_string); [reflexivity|].
+    cbn [rview]. apply str_eqb_true in H. now rewrite H.
+Qed.
+
+Definition stmts_rdflib (stmts : list (list term)) : bool := forallb (forallb term_rdflib) stmts.
+Lemma stmts_rdflib_lang stmts : stmts_rdflib stmts = true -> stmts_lang_ok stmts = true.
+Proof.
+  unfold stmts_rdflib, stmts_lang_ok. induction stmts as [|st rest IH]; cbn [forallb]; [reflexivity|]. intros H.
+  apply andb_prop in H. destruct H as [H1 H2]. rewrite (IH H2), andb_true_r.
+  induction st as [|t ts IHt]; cbn [forallb] in *; [reflexivity|]. apply andb_prop in H1. destruct H1 as [Ht Hts].
+  rewrite (term_rdflib_lang _ Ht). now apply IHt.
+Qed.
+
+Lemma eview_triples stmts : stmts_rdflib stmts = true -> map eview (flat_map event_of_triple stmts) = flat_map event_of_triple stmts.
+Proof.
+  unfold stmts_rdflib. induction stmts as [|st rest IH]; cbn [forallb flat_map]; [reflexivity|]. intros H.
+  apply andb_prop in H. destruct H as [H1 H2]. rewrite map_app, (IH H2). f_equal.
+  destruct st as [|s [|p [|o r]]]; try reflexivity. cbn [forallb] in H1.
+  apply andb_prop in H1. destruct H1 as [Hs H1]. apply andb_prop in H1. destruct H1 as [Hp H1]. apply andb_prop in H1. destruct H1 as [Ho _].
+  cbn [event_of_triple map eview]. now rewrite !rview_norm.
+Qed.
+
+Lemma term_rdflib_gcorr g : term_rdflib g = true -> term_rdflib (gcorr_inv g) = true.
+Proof. destruct g as [x|x|lex l d|s p o| |]; cbn [gcorr_inv]; intros H; try exact H. destruct (str_eqb x rdflib_default_graph); reflexivity. Qed.
+
+Lemma eview_quads stmts : stmts_rdflib stmts = true ->
+  map eview (flat_map event_of_quad (map quad_inv stmts)) = flat_map event_of_quad (map quad_inv stmts).
+Proof.
+  unfold stmts_rdflib. induction stmts as [|st rest IH]; cbn [forallb flat_map map]; [reflexivity|]. intros H.
+  apply andb_prop in H. destruct H as [H1 H2]. rewrite map_app, (IH H2). f_equal.
+  destruct st as [|s [|p [|o [|g r]]]]; try reflexivity. cbn [forallb] in H1.
+  apply andb_prop in H1. destruct H1 as [Hs H1]. apply andb_prop in H1. destruct H1 as [Hp H1]. apply andb_prop in H1. destruct H1 as [Ho H1].
+  apply andb_prop in H1. destruct H1 as [Hg _].
+  cbn [quad_inv event_of_quad map eview]. now rewrite !rview_norm by (try assumption; now apply term_rdflib_gcorr).
 Qed.
 
 (* ---- Graph.serialize -> bytes -> rdflib parser ---- *)
 Theorem rdf_triples_bytes_round_trip (o : soptions) (s s' : stream) (d : rdata) (evs : list tev) (grouped : bool) :
   stream_new TripleStream Rdflib o = Ok s -> cfg_ok o (st_logical s) ->
   p_nd (so_params o) = false -> fl_rows (st_flow s) = [] ->
-  rd_kind d <> RDataset -> stmts_rdf11 (rd_stmts d) = true ->
+  rd_kind d <> RDataset -> stmts_rdf11 (rd_stmts d) = true -> stmts_rdflib (rd_stmts d) = true ->
   rdf_triples_stream_frames d s = (s', evs) -> raised evs = None -> Forall small (emitted evs) ->
   let r := parse_stream Rdflib grouped false (write_delimited (emitted evs)) in
   flat_events r = flat_map event_of_triple (rd_stmts d) /\ pr_end r = PEnd /\ length (pr_frames r) = length (emitted evs).
 Proof.
-  intros Hnew Hcfg Hnd Hfresh Hk H11 Hrun Hraise Hsmall.
+  intros Hnew Hcfg Hnd Hfresh Hk H11 Hrd Hrun Hraise Hsmall.
   pose proof (rdf_triples_stream_valid _ _ _ _ _ Hnew Hcfg Hnd Hfresh Hk H11 Hrun Hraise) as Hv.
   rewrite (rdf_triples_as_generic d s Hk) in Hrun.
-  apply valid_bytes_decode_rdflib; [exact Hv|exact Hsmall| |apply first_plain_frames; eapply triples_frames_plain; eauto].
+  cbv zeta. rewrite <- (eview_triples _ Hrd).
+  apply (valid_bytes_decode_rdflib (emitted evs) (flat_map event_of_triple (rd_stmts d)) grouped); [exact Hv|exact Hsmall| |apply first_plain_frames; eapply triples_frames_plain; eauto].
   (* the rows: options row, then what the rdflib dispatcher appended *)
   pose proof (triples_stream_rows _ _ _ _ Hrun Hraise) as Hrows.
   rewrite <- emitted_rows_is_concat, Hrows.
@@ -188,25 +269,26 @@ Proof.
     destruct (negb _); [discriminate|]. inversion Hnew; subst; cbn. auto. }
   assert (Hig : st_integ (enroll s) = Rdflib /\ fl_rows (st_flow (enroll s)) = [options_row s]).
   { destruct Henr as [He Hi]. unfold enroll. rewrite He. cbn. rewrite Hfresh. auto. }
-  destruct Hig as [Hig Hfl]. rewrite Hfl. apply rows_rdf11_app; [reflexivity|]. apply appended_triples_rdf11. exact Hig.
+  destruct Hig as [Hig Hfl]. rewrite Hfl. apply rows_rdf11_app; [reflexivity|]. apply appended_triples_rdf11; [apply stmts_rdflib_lang; exact Hrd | exact Hig].
 Qed.
 
 Theorem rdf_quads_bytes_round_trip (o : soptions) (s s' : stream) (d : rdata) (evs : list tev) (grouped : bool) :
   stream_new QuadStream Rdflib o = Ok s -> cfg_ok o (st_logical s) ->
   p_nd (so_params o) = false -> fl_rows (st_flow s) = [] ->
-  forallb spo_rdf11 (rd_stmts d) = true ->
+  forallb spo_rdf11 (rd_stmts d) = true -> stmts_rdflib (rd_stmts d) = true ->
   rdf_quads_stream_frames d s = (s', evs) -> raised evs = None -> Forall small (emitted evs) ->
   let r := parse_stream Rdflib grouped false (write_delimited (emitted evs)) in
   flat_events r = flat_map event_of_quad (map quad_inv (rd_stmts d)) /\ pr_end r = PEnd /\ length (pr_frames r) = length (emitted evs).
 Proof.
-  intros Hnew Hcfg Hnd Hfresh H11 Hrun Hraise Hsmall.
+  intros Hnew Hcfg Hnd Hfresh H11 Hrd Hrun Hraise Hsmall.
   pose proof (rdf_quads_stream_valid _ _ _ _ _ Hnew Hcfg Hnd Hfresh H11 Hrun Hraise) as Hv.
   assert (Hopts : st_opts (enroll s) = o).
   { unfold enroll. unfold stream_new in Hnew. destruct (negb _); [discriminate|]. unfold bind in Hnew.
     destruct (match so_flow o with Some f => Ok f | None => infer_flow QuadStream o end); [|discriminate].
     destruct (negb _); [discriminate|]. inversion Hnew; subst; reflexivity. }
   rewrite (rdf_quads_as_generic d s) in Hrun by (rewrite Hopts; exact Hnd).
-  apply valid_bytes_decode_rdflib; [exact Hv|exact Hsmall| |apply first_plain_frames; eapply quads_frames_plain; eauto].
+  cbv zeta. rewrite <- (eview_quads _ Hrd).
+  apply (valid_bytes_decode_rdflib (emitted evs) (flat_map event_of_quad (map quad_inv (rd_stmts d))) grouped); [exact Hv|exact Hsmall| |apply first_plain_frames; eapply quads_frames_plain; eauto].
   pose proof (quads_stream_rows _ _ _ _ Hrun Hraise) as Hrows.
   rewrite <- emitted_rows_is_concat, Hrows.
   assert (Hns : ns_phase true (sdata_of d) (enroll s) = (enroll s, Ok tt)) by (apply ns_phase_off; rewrite Hopts; exact Hnd).
@@ -217,5 +299,5 @@ Proof.
     destruct (negb _); [discriminate|]. inversion Hnew; subst; cbn. auto. }
   assert (Hig : st_integ (enroll s) = Rdflib /\ fl_rows (st_flow (enroll s)) = [options_row s]).
   { destruct Henr as [He Hi]. unfold enroll. rewrite He. cbn. rewrite Hfresh. auto. }
-  destruct Hig as [Hig Hfl]. rewrite Hfl. apply rows_rdf11_app; [reflexivity|]. apply appended_quads_rdf11. exact Hig.
+  destruct Hig as [Hig Hfl]. rewrite Hfl. apply rows_rdf11_app; [reflexivity|]. apply appended_quads_rdf11; [apply stmts_rdflib_lang; exact Hrd | exact Hig].
 Qed.
